@@ -98,6 +98,12 @@ impl Buildpack for Vbp {
             _ => {}
         }
         let mut b = BuildResultBuilder::new();
+        if self.script["launch"] == "empty" {
+            b = b.launch(LaunchBuilder::new().build());
+        }
+        if self.script["storeout"] == "empty" {
+            b = b.store(Store::default());
+        }
         if self.script["launch"] == "yes" {
             b = b.launch(LaunchBuilder::new().process(ProcessBuilder::new(process_type!("web"), ["run", "vbp"]).default(true).build()).build());
         }
